@@ -422,3 +422,45 @@ Proof.
   intros pn o na t. unfold pick_body. apply frame_tbind; [apply frame_new_unapplied|].
   intros t1 _. destruct na; [apply fr_refl|apply frame_push_patches].
 Qed.
+
+(* ---------------------------------------------------------------- refresh *)
+
+Lemma fr_refresh_commit : forall t pc tr, fr t (fst (refresh_commit t pc tr)).
+Proof.
+  intros t pc tr. unfold refresh_commit. destruct (tree_eqb _ _); cbn [fst]; [apply fr_refl|].
+  unfold put. cbn [fst]. split; [reflexivity|]. rewrite t_objs_set_objs. apply store_extends_put.
+Qed.
+
+Lemma frame_refresh_absorb : forall pn tmpname t, frame t (refresh_absorb pn tmpname t).
+Proof.
+  intros pn tmpname t. unfold refresh_absorb. destruct (mem pn (t_applied t)).
+  - cbv zeta. apply frame_tbind.
+    + destruct (Nat.ltb _ _); [|apply fr_refl].
+      match goal with |- context [pop_patches ?f t] =>
+        pose proof (fr_pop f t) as Hp; destruct (pop_patches f t) as [t1 extra] end.
+      cbn [fst] in Hp. destruct extra; [|exact I].
+      eapply frame_fr; [exact Hp|apply frame_push_patches].
+    + intros t1 _. destruct (t_patch t1 pn) as [pc|]; [|exact I].
+      destruct (t_patch t1 tmpname) as [tc|]; [|exact I].
+      destruct (last_error _) as [top|]; [|exact I].
+      destruct (negb _); [exact I|].
+      pose proof (fr_refresh_commit t1 pc (tree_of (t_objs t1) tc)) as H2.
+      destruct (refresh_commit t1 pc _) as [t2 newc]. cbn [fst] in H2.
+      pose proof (fr_delete (fun n => name_eqb n tmpname) t2) as H3.
+      destruct (delete_patches _ t2) as [t3 inc]. cbn [fst] in H3.
+      eapply frame_fr; [eapply fr_trans; [exact H2|exact H3]|].
+      apply frame_tbind; [destruct newc; [apply frame_update_patch|apply fr_refl]|].
+      intros t4 _. apply frame_push_patches.
+  - pose proof (fr_pop (fun n => name_eqb n tmpname) t) as Hp.
+    destruct (pop_patches _ t) as [t1 extra]. cbn [fst] in Hp.
+    destruct extra; [|exact I].
+    destruct (t_patch t1 pn) as [pc|]; [|exact I].
+    destruct (t_patch t1 tmpname) as [tc|]; [|exact I].
+    destruct (first_parent _ _) as [tpar|]; [|exact Hp].
+    destruct (apply3way _ _ _ _) as [tree'|]; [|exact Hp].
+    pose proof (fr_refresh_commit t1 pc tree') as H2.
+    destruct (refresh_commit t1 pc tree') as [t2 newc]. cbn [fst] in H2.
+    eapply frame_fr; [eapply fr_trans; [exact Hp|exact H2]|].
+    apply frame_tbind; [destruct newc; [apply frame_update_patch|apply fr_refl]|].
+    intros t3 _. cbn [frame]. apply fr_delete.
+Qed.
